@@ -347,6 +347,63 @@ Proof.
   intros i Hi. cbn [refs]. apply nthN_app_l. exact Hi.
 Qed.
 
+(** ---- create for a value whose conversion uses the updater ------------------------------------ *)
+
+Lemma not_container_snoc s s' id :
+  refs s' = refs s ++ [XPromised] -> not_container s id -> not_container s' id.
+Proof.
+  intros Hr Hn i sid idx Hi. rewrite Hr in Hi.
+  destruct (N.eq_dec i (lenN (refs s))) as [E|E].
+  - subst i. unfold nthN, lenN in Hi. rewrite Nat2N.id in Hi.
+    rewrite nth_error_app2 in Hi by lia. rewrite Nat.sub_diag in Hi. cbn in Hi. discriminate.
+  - rewrite nthN_app_l in Hi by exact E. exact (Hn _ _ _ Hi).
+Qed.
+
+(** create on a Primitive is the instance of create_with whose conversion is the identity *)
+Lemma create_is_create_with s v : create_with s (fun s1 => Ok (s1, v)) = Ok (create s v).
+Proof. reflexivity. Qed.
+
+(** create(Nested{child}): two fresh, distinct numbers — the parent's is the one reserved before the conversion ran, the child's
+    the next one; the parent reads as << /Child c >>, the child as the value given, every other number as before *)
+Lemma create_nested_ryw s v s' rp rc :
+  create_nested s v = Ok (s', (rp, rc)) ->
+  rp = (lenN (refs s), 0) /\ rc = (lenN (refs s) + 1, 0) /\ fst rp <> fst rc /\
+  (forall f g, resolve_ref f s' (fst rc, g) = Ok v) /\
+  (forall f g, resolve_ref f s' (fst rp, g) = Ok (PDict [(k_Child, PRef (fst rc) (snd rc))])) /\
+  (not_container s (fst rp) -> not_container s (fst rc) -> forall f r0, fst r0 <> fst rp -> fst r0 <> fst rc ->
+     resolve_ref f s' r0 = resolve_ref f s r0) /\
+  backend s' = backend s /\ cache s' = [] /\ lenN (refs s') = lenN (refs s) + 2.
+Proof.
+  unfold create_nested, create_with, nested_conv, create. cbn [bind refs changes backend start cache cached fst snd].
+  intros H. inversion H; subst; clear H. cbn [fst snd refs changes backend cache].
+  assert (Hl : lenN (refs s ++ [XPromised]) = lenN (refs s) + 1).
+  { unfold lenN. rewrite app_length. cbn [length]. lia. }
+  rewrite Hl.
+  split; [reflexivity|]. split; [reflexivity|]. split; [lia|].
+  split.
+  { intros f g. eapply resolve_ref_changed. cbn [changes fst].
+    rewrite clookup_cinsert_other by lia. apply clookup_cinsert_same. }
+  split.
+  { intros f g. eapply resolve_ref_changed. cbn [changes fst]. apply clookup_cinsert_same. }
+  split.
+  { intros Hnp Hnc f r0 Hne1 Hne2.
+    set (s1 := mkSt (refs s ++ [XPromised]) (changes s) (backend s) (start s) [] (cached s)).
+    set (s2 := mkSt ((refs s ++ [XPromised]) ++ [XPromised]) (cinsert (changes s) (lenN (refs s) + 1) (v, 0)) (backend s) (start s) [] (cached s)).
+    transitivity (resolve_ref f s2 r0).
+    - apply (resolve_ref_frame f _ _ (lenN (refs s))); try reflexivity; try assumption.
+      + intros i Hi. cbn [changes s2]. apply clookup_cinsert_other. exact Hi.
+      + apply (not_container_snoc s1 s2); [reflexivity|]. apply (not_container_snoc s s1); [reflexivity|exact Hnp].
+    - transitivity (resolve_ref f s1 r0).
+      + apply (resolve_ref_frame f _ _ (lenN (refs s) + 1)); try reflexivity; try assumption.
+        * intros i Hi. cbn [refs s1 s2]. apply nthN_app_l. rewrite Hl. exact Hi.
+        * intros i Hi. cbn [changes s1 s2]. apply clookup_cinsert_other. exact Hi.
+        * apply (not_container_snoc s s1); [reflexivity|exact Hnc].
+      + apply (resolve_ref_frame f _ _ (lenN (refs s))); try reflexivity; try assumption.
+        intros i Hi. cbn [refs s1]. apply nthN_app_l. exact Hi. }
+  split; [reflexivity|]. split; [reflexivity|].
+  unfold lenN. rewrite !app_length. cbn [length]. lia.
+Qed.
+
 (** ---- the cache is invisible -------------------------------------------------------------- *)
 
 Definition cache_ok (s : st) : Prop :=
